@@ -42,9 +42,33 @@ def base_case(rng, quick=True):
     if quick and len(case["schedule"]) > 30:
         # keep quick runs short: cut the schedule at a drain-free point (a prefix of a clean history is clean)
         case["schedule"] = case["schedule"][:30]
+    case["schedule"] = settle_before_leaving(case["schedule"])
     if rng.random() < 0.3:
         case["resume_after_crash"] = True
     return case
+
+
+def settle_before_leaving(schedule):
+    """claimed-clean domain of C07: an object made since the last quiet point is not renamed, moved or deleted before the
+    next one (a drain is inserted).  Otherwise the engine may create the peer at a path the origin has already left and die
+    before the commit; that half-recorded create is not recognised (finding F-C07-2, corpus/C07/F-C07-2-*.json)."""
+    out, fresh = [], set()
+    for a in schedule:
+        if a[0] == "drain":
+            fresh = set()
+        elif a[0] == "user":
+            op = a[2]
+            if op[0] in ("create", "mkdir"):
+                fresh.add(op[1])
+            elif op[0] in ("rename", "delete"):
+                src = op[1]
+                if any(src == f or src.startswith(f + "/") for f in fresh):
+                    out.append(["drain"])
+                    fresh = set()
+                if op[0] == "rename":
+                    fresh.add(op[2])
+        out.append(a)
+    return out
 
 
 # ------------------------------------------------------------------ interning
